@@ -113,6 +113,12 @@ func c13eval(fn int, in []byte, size int) (res c13res) {
 		res.Alloc = 0 // the stack dump of Catch is not the decoder's allocation
 	case err != nil:
 		res.Out, res.Detail = "error", err.Error()
+		if re, ok := err.(*RedisError); ok {
+			res.Detail = "(redis error reply)"
+			if re.IsNil() {
+				res.Detail = "(redis nil)"
+			}
+		}
 	default:
 		res.Out = "value"
 	}
@@ -123,48 +129,67 @@ func c13bound(in []byte) uint64 { return 1<<20 + 64*uint64(len(in)) }
 
 func c13isLenType(b byte) bool { return strings.IndexByte("$!=*~>%|;", b) >= 0 }
 
-// c13risky: a run of >= 8 digits right after a length-carrying type byte (optional '-')
-// whose line is terminated by a later LF (the decoder parses number lines only
-// once the LF has arrived: resp.go readI uses ReadSlice('\n')).
+// c13risky: a run of >= 8 digits whose line is terminated by a later LF. (A
+// decoder cannot act on a number before its terminator arrived; resp.go readI
+// uses ReadSlice('\n').) The byte in front of the digits is deliberately not
+// looked at: after "$?" any byte is taken as the chunk marker.
 func c13risky(in []byte) bool {
+	run := 0
 	for i := 0; i < len(in); i++ {
-		if !c13isLenType(in[i]) {
+		if in[i] >= '0' && in[i] <= '9' {
+			run++
 			continue
 		}
-		j := i + 1
-		if j < len(in) && in[j] == '-' {
-			j++
-		}
-		k := j
-		for k < len(in) && in[k] >= '0' && in[k] <= '9' {
-			k++
-		}
-		if k-j >= 8 && bytes.IndexByte(in[k:], '\n') >= 0 {
+		if run >= 8 && bytes.IndexByte(in[i:], '\n') >= 0 {
 			return true
 		}
+		run = 0
 	}
 	return false
 }
 
-// c13culprit names the header that carries the largest declared length (for signatures only).
+// c13culprit names the kind of header that carries the decisive number (used for signatures only).
 func c13culprit(in []byte) string {
-	best, bestLen := byte(0), 0
-	for i := 0; i < len(in); i++ {
-		if !c13isLenType(in[i]) {
-			continue
-		}
-		j := i + 1
+	best, bestLen, bestRank := -1, 0, -1
+	for i := 0; i < len(in); {
+		j := i
 		for j < len(in) && in[j] >= '0' && in[j] <= '9' {
 			j++
 		}
-		if j-(i+1) > bestLen {
-			best, bestLen = in[i], j-(i+1)
+		if j == i {
+			i++
+			continue
+		}
+		k := i - 1
+		if k >= 0 && in[k] == '-' {
+			k--
+		}
+		rank := 0
+		if k >= 0 && c13isLenType(in[k]) {
+			rank = 2
+		} else if k >= 3 && string(in[k-3:k]) == "?\r\n" || i >= 4 && string(in[i-4:i-1]) == "?\r\n" {
+			rank = 1 // any byte after "$?CRLF" is taken as the chunk marker
+		}
+		if j-i >= 4 && (rank > bestRank || rank == bestRank && j-i > bestLen) {
+			best, bestLen, bestRank = k, j-i, rank
+		}
+		i = j
+	}
+	if bestRank < 0 {
+		return "no large number"
+	}
+	if bestRank == 1 || bestRank == 2 && in[best] == ';' {
+		return "chunk length of a streamed string"
+	}
+	if bestRank == 2 {
+		switch in[best] {
+		case '$', '!', '=':
+			return "declared length of a blob string/error/verbatim string ($ ! =)"
+		default:
+			return "declared size of an aggregate (* ~ > % |)"
 		}
 	}
-	if bestLen < 4 {
-		return "no large length"
-	}
-	return fmt.Sprintf("%q header with %d+ digit length", best, min(bestLen, 8)/4*4)
+	return "other number"
 }
 
 func c13stripDigits(s string) string {
@@ -431,25 +456,25 @@ func (s *c13state) judge(fn int, in []byte, gen string, size int, risk bool, res
 	switch res.Out {
 	case "panic":
 		r.Outcome(name + ": PANIC")
-		r.Violate(fmt.Sprintf("%s: panic in %s (%s)", name, res.Site, c13stripDigits(res.Detail)),
-			fmt.Sprintf("input %s + EOF (bufio %d): panic: %s", show, size, res.Detail), rp)
+		r.Violate(fmt.Sprintf("panic in %s (%s)", res.Site, c13stripDigits(res.Detail)),
+			fmt.Sprintf("%s on input %s + EOF (bufio %d): panic: %s", name, show, size, res.Detail), rp)
 		return false
 	case "crash":
 		r.Outcome(name + ": FATAL CRASH")
 		cls := c13stripDigits(res.Detail)
 		if strings.Contains(res.Detail, "out of memory") {
-			cls = "out of memory under RLIMIT_AS=4GiB, " + c13culprit(in)
+			cls = "out of memory under RLIMIT_AS=4GiB: " + c13culprit(in)
 		} else if gen != "" {
-			cls += ", deeply nested aggregates"
+			cls += ": deeply nested aggregates"
 		}
-		r.Violate(fmt.Sprintf("%s: process dies with fatal error (%s)", name, cls),
-			fmt.Sprintf("input %s + EOF (bufio %d) in a child process limited to 4 GiB address space: %s", show, size, res.Detail), rp)
+		r.Violate(fmt.Sprintf("process dies with unrecoverable fatal error (%s)", cls),
+			fmt.Sprintf("%s on input %s + EOF (bufio %d) in a child process limited to 4 GiB address space: %s", name, show, size, res.Detail), rp)
 		return false
 	}
 	if res.Alloc > c13bound(in) && gen == "" {
 		r.Outcome(name + ": EXCESSIVE ALLOCATION")
-		r.Violate(fmt.Sprintf("%s: allocation not bounded by received bytes (%s)", name, c13culprit(in)),
-			fmt.Sprintf("input %s + EOF (%d bytes, bufio %d): %d bytes allocated while decoding (bound 1MiB+64*len = %d); outcome %s %s", show, len(in), size, res.Alloc, c13bound(in), res.Out, res.Detail), rp)
+		r.Violate(fmt.Sprintf("allocation not bounded by received bytes (%s)", c13culprit(in)),
+			fmt.Sprintf("%s on input %s + EOF (%d bytes, bufio %d): %d bytes allocated while decoding (bound 1MiB+64*len = %d); outcome %s %s", name, show, len(in), size, res.Alloc, c13bound(in), res.Out, res.Detail), rp)
 		return false
 	}
 	if res.Out == "value" {
@@ -503,6 +528,9 @@ func (s *c13state) explore(layer string, tokensAt func(depth int) []string, allo
 					}
 					al := false
 					for _, sz := range sizes {
+						if sz != sizes[0] && len(cand) < sz {
+							continue // the whole input fits into the smaller buffer: identical behaviour
+						}
 						res := c13eval(fn, cand, sz)
 						if s.judge(fn, cand, "", sz, false, &res) {
 							al = true
@@ -573,6 +601,9 @@ func TestVerif_C13(t *testing.T) {
 				if err != nil {
 					panic(err)
 				}
+				if out[0].res[p.Fn] == nil {
+					panic("replay: child gave no result")
+				}
 				s.judge(p.Fn, p.In, p.Gen, p.Size, true, out[0].res[p.Fn])
 			} else {
 				res := c13eval(p.Fn, p.In, p.Size)
@@ -593,7 +624,7 @@ func TestVerif_C13(t *testing.T) {
 		r.Bounds["line_full_alphabet_up_to_depth"] = lineFullDepth
 		r.Bounds["line_tokens_max_for_2^30"] = hugeLineDepth
 		r.Bounds["child_address_space_limit"] = c13asLimit
-		r.Rule = "layer raw: every sequence of <= raw_tokens_max tokens over {17 type bytes, unknown type 'X', digits 0 1 7, lengths -1 -2 minInt64 maxInt64 10^20-1 2^30 65536 ?, CRLF, CR, LF, 'ab'} + EOF; layer line: every sequence of <= line_tokens_max complete header lines {17 type bytes} x {'' 0 1 2 - -0 -1 -2 ? a 65536 2^30 2^62 2^63-1 -2^63 10^20-1} x CRLF (a few with bare LF) and payload pieces (beyond line_full_alphabet_up_to_depth a reduced alphabet {+ : $ * % | ; .} x {'' 0 1 -2 ? 65536 2^62 2^63-1}); the 2^30 token (1 GiB allocations are slow even in the child) only at the positions given in bounds; prefixes are extended only while the decoder read past the end of the prefix (and did not already violate); each input through readNextMessage and streamTo with recover, heap bytes allocated during the call measured (runtime/metrics) and required <= 1MiB + 64*len(input); inputs with a >= 8 digit length after a length-carrying type byte run in a child process under RLIMIT_AS 4GiB (a fatal error of the child, confirmed in a fresh child, is a violation); plus deeply nested arrays in the child. non-trivial = input on which a decoder wanted more bytes or that needed the child"
+		r.Rule = "layer raw: every sequence of <= raw_tokens_max tokens over {17 type bytes, unknown type 'X', digits 0 1 7, lengths -1 -2 minInt64 maxInt64 10^20-1 2^30 65536 ?, CRLF, CR, LF, 'ab'} + EOF; layer line: every sequence of <= line_tokens_max complete header lines {17 type bytes} x {'' 0 1 2 - -0 -1 -2 ? a 65536 2^30 2^62 2^63-1 -2^63 10^20-1} x CRLF (a few with bare LF) and payload pieces (beyond line_full_alphabet_up_to_depth a reduced alphabet {+ : $ * % | ; .} x {'' 0 1 -2 ? 65536 2^62 2^63-1}; quick: {+ $ * % ; .} x {'' 1 -2 ? 65536 2^63-1} and only after prefixes that did not need the child); the 2^30 token (1 GiB allocations are slow even in the child) only at the positions given in bounds; prefixes are extended only while the decoder read past the end of the prefix (and did not already violate); each input through readNextMessage and streamTo with recover, heap bytes allocated during the call measured (runtime/metrics) and required <= 1MiB + 64*len(input); inputs with a >= 8 digit length after a length-carrying type byte run in a child process under RLIMIT_AS 4GiB (a fatal error of the child, confirmed in a fresh child, is a violation); plus deeply nested arrays in the child. non-trivial = input on which a decoder wanted more bytes or that needed the child"
 		r.Assume("allocation is measured as the growth of /gc/heap/allocs:bytes around the call (large objects are accounted immediately; small-object accounting may lag by at most a span per size class, far below the 1 MiB slack)")
 		r.Assume("stack memory is not counted as allocation; a stack overflow is reported as a fatal crash")
 		r.Assume("bufio reader sizes 32 (minimum rueidis configures) and 4096; split reads are covered by C12")
@@ -632,6 +663,10 @@ func TestVerif_C13(t *testing.T) {
 		lineTokens = append(lineTokens, "a\r\n", "ab\r\n", "ab", "a", "\r\n", "t\r\n", "X")
 		lineReduced := mk("+:$*%|;.", []string{"", "0", "1", "-2", "?", "65536", "4611686018427387904", "9223372036854775807"})
 		lineReduced = append(lineReduced, "_\r\n", "#t\r\n", "a\r\n", "ab\r\n", "ab", "a", "\r\n", "X")
+		if r.Quick() {
+			lineReduced = mk("+$*%;.", []string{"", "1", "-2", "?", "65536", "9223372036854775807"})
+			lineReduced = append(lineReduced, "_\r\n", "a\r\n", "ab", "\r\n", "X")
+		}
 		s.explore("line", func(depth int) []string {
 			if depth <= lineFullDepth {
 				return lineTokens
@@ -641,6 +676,9 @@ func TestVerif_C13(t *testing.T) {
 			if strings.Contains(tok, "1073741824") && c13isLenType(tok[0]) && depth > hugeLineDepth {
 				return false
 			}
+			if r.Quick() && depth > lineFullDepth && c13risky(prefix) {
+				return false // quick tier: prefixes that already needed the child are not extended with the reduced alphabet
+			}
 			return true
 		}, lineDepth, sizes)
 		r.Bounds["line_reduced_alphabet"] = len(lineReduced)
@@ -649,23 +687,28 @@ func TestVerif_C13(t *testing.T) {
 
 		// ---- deep nesting (input generated inside the child; never in-process: a stack overflow is not recoverable)
 		if r.Mine(0) {
-			levels := vrun.Pick(r, 4000000, 8000000)
+			levels := 1500000
 			r.Bounds["nesting_levels"] = levels
-			var jobs []c13job
-			for _, fr := range []string{"*1\r\n", "%1\r\n+k\r\n", "*?\r\n"} {
-				jobs = append(jobs, c13job{Gen: "nest:" + hex.EncodeToString([]byte(fr)) + ":" + strconv.Itoa(levels), Mask: [2]bool{true, true}, Size: 4096})
-			}
-			out, err := c13runChild(jobs)
-			if err != nil {
-				panic(err)
-			}
-			for i := range out {
+			frames := vrun.Pick(r, []string{"*1\r\n"}, []string{"*1\r\n", "%1\r\n+k\r\n", "*?\r\n", "|1\r\n+k\r\n", ">1\r\n"})
+			for _, fr := range frames {
 				for fn := 0; fn < 2; fn++ {
-					if res := out[i].res[fn]; res != nil {
-						r.StateStr("nest", jobs[i].Gen, strconv.Itoa(fn))
-						r.NonTrivialStr("nest", jobs[i].Gen, strconv.Itoa(fn))
-						s.judge(fn, nil, jobs[i].Gen, 4096, true, res)
+					j := c13job{Gen: "nest:" + hex.EncodeToString([]byte(fr)) + ":" + strconv.Itoa(levels), Size: 4096}
+					j.Mask[fn] = true
+					out := make([]c13jobRes, 1)
+					dj, _, fatal, err := c13spawn([]c13job{j}, out) // alone in a fresh child
+					if err != nil {
+						panic(err)
 					}
+					res := out[0].res[fn]
+					if dj >= 0 {
+						res = &c13res{Out: "crash", Detail: fatal}
+					}
+					if res == nil {
+						panic("nest: no result")
+					}
+					r.StateStr("nest", j.Gen, strconv.Itoa(fn))
+					r.NonTrivialStr("nest", j.Gen, strconv.Itoa(fn))
+					s.judge(fn, nil, j.Gen, 4096, true, res)
 				}
 			}
 		}
